@@ -76,4 +76,164 @@ theorem history_snap_stable_prefix (db : Db) (ops1 ops2 : List Op) (s : St) (i :
     (h : snap (run db s ops1) i = some v) : snap (run db (run db s ops1) ops2) i = some v :=
   history_snap_stable db ops2 _ i v h
 
+/-! ### non-vacuity: snapshots exist, and the operations in between DO write (into fresh cells) -/
+
+/-- `2 m + 3 cm`: `_MatchQuantities` rewrites the copied `[cm, 1]` list to `[m, 1]` in place; the operand
+`3 cm` (pool member 1) still has its `[cm, 1]` list and its value, and the sum is `2.03 m` -/
+example :
+    let s := run exDb St.empty [.mkScalar 2 exM exLength, .mkScalar 3 exCm exLength, .arith .add (.obj 0) (.obj 1)]
+    snap s 1 = some (.scalar ⟨[(exLength, exCm, 1)], 0, false, [(exLength, exCm, 1)]⟩ 3) ∧
+    snap s 2 = some (.scalar ⟨[(exLength, exM, 1)], 0, false, [(exLength, exM, 1)]⟩ (203 / 100)) := by
+  decide +kernel
+
+/-- `FractionScalar(5 3/4 m).GetValue('cm')`: the numerator of a COPY of the fraction is written
+(result `500 75/1`), the operand keeps `5 3/4` -/
+example :
+    let ops := [Op.mkFScalar 5 3 4 exM exLength, .getValue 0 (some exCm)]
+    let s := run exDb St.empty ops
+    snap s 0 = some (.fscalar ⟨[(exLength, exM, 1)], 0, false, [(exLength, exM, 1)]⟩ 1 5 0 (3 / 4)) ∧
+    s.heap[4]? = some (.fv 500 5) ∧ s.heap[5]? = some (.frac 75) := by
+  decide +kernel
+
+/-- two Arrays over ONE list (the caller's container is kept by reference), arithmetic on them, a
+`ChangingIndex` on a FixedArray: the shared container cell 0 is still `[1, 2]` -/
+example :
+    let ops := [Op.mkArray .list [1, 2] exM exLength, .mkArrayFrom 0 exCm exLength, .arith .mul (.obj 0) (.obj 1),
+                .mkFixed 2 .list [1, 2] exM exLength, .changingIndex 3 (-1) (.num 7) true]
+    let s := run exDb St.empty ops
+    s.heap[0]? = some (.seq .list [1, 2]) ∧ s.objs[0]? = some (.array 0 0) ∧ s.objs[1]? = some (.array 1 0) ∧
+    (snap s 4).isSome := by
+  decide +kernel
+
+/-! ## Copies and pickles -/
+
+/-- `copy.copy(x)`, `copy.deepcopy(x)`, `x.Copy()` return `x` itself and change nothing -/
+theorem copy_self (db : Db) (s s' : St) (i : Nat) (out : Out) (h : exec db (.copy i) s = .ok (out, s')) :
+    out = .obj i false ∧ s' = s := by
+  rw [exec_copy, bind_eval] at h
+  unfold getObj at h
+  cases ho : s.objs[i]? with
+  | none => rw [ho] at h; cases h
+  | some o => rw [ho] at h; simp only [pure_eval] at h; cases h; exact ⟨rfl, rfl⟩
+
+/-- ... hence the copy compares equal to the original (`__eq__` of the object's class), for every
+well-formed pool member: simple, derived, empty, with or without caption -/
+theorem copy_eq (s : St) (i : Nat) (a : Snap) (h : snap s i = some a) : objEq i i s = .ok (true, s) :=
+  objEq_of_same_snap h h
+
+/-- `x.CreateCopy()`: a NEW pool member whose snapshot is identical to the original's (same value or the
+same container / FractionValue object, same quantity), the original unchanged, and `x.CreateCopy() == x` -/
+theorem createCopy_eq (db : Db) (s s' : St) (i : Nat) (out : Out) (a : Snap) (ha : snap s i = some a)
+    (h : exec db (.createCopy i none none) s = .ok (out, s')) :
+    out = .obj s.objs.length true ∧ i < s.objs.length ∧ snap s' i = some a ∧ snap s' s.objs.length = some a ∧
+      objEq i s.objs.length s' = .ok (true, s') := by
+  obtain ⟨o, ho, hout, hs'⟩ := createCopy_plain ha h
+  have hi : i < s.objs.length := by
+    rcases Nat.lt_or_ge i s.objs.length with h' | h'
+    · exact h'
+    · rw [List.getElem?_eq_none h'] at ho; cases ho
+  have key1 : ({ s with objs := s.objs ++ [o] } : St).objs[i]? = s.objs[i]? := by
+    show (s.objs ++ [o])[i]? = s.objs[i]?
+    rw [ho]; exact getElem?_append_some ho
+  have key2 : ({ s with objs := s.objs ++ [o] } : St).objs[s.objs.length]? = s.objs[i]? := by
+    show (s.objs ++ [o])[s.objs.length]? = s.objs[i]?
+    rw [ho]; simp
+  have h1 : snap s' i = some a := by
+    rw [← ha]; subst hs'
+    exact snap_congr (s := s) (s' := { s with objs := s.objs ++ [o] }) rfl rfl key1
+  have h2 : snap s' s.objs.length = some a := by
+    rw [← ha]; subst hs'
+    exact snap_congr (s := s) (s' := { s with objs := s.objs ++ [o] }) rfl rfl key2
+  exact ⟨hout, hi, h1, h2, objEq_of_same_snap h1 h2⟩
+
+/-
+Full statement (not proved):
+  theorem pickle_scalar_eq : exec db (.pickle i) s = .ok (.obj j true, s') → snap s i = some (.scalar qs v) →
+      Reachable db s → objEq i j s' = .ok (true, s')
+What is proved: the unpickled Scalar is a new pool member with the SAME number whose quantity is what
+`ObtainQuantity` returns for the reduced state of the original's quantity, and `unpickled == original`
+holds exactly when that re-obtained quantity equals the original's (`Quantity.__eq__`).  Missing: the
+invariant that every entry of `quantities_cache` still agrees with its key (the frame theorem above shows it
+is never broken by a later write; that each insertion establishes it is C07's `cache_entry_determined_by_key`
+/ `pickle_roundtrip_eq`).  The examples below run the full round trip on derived, empty and captioned cases.
+-/
+theorem pickle_scalar_eq_partial (db : Db) (s s' : St) (i q : Nat) (x : Rat) (out : Out)
+    (ho : s.objs[i]? = some (.scalar q x)) (h : exec db (.pickle i) s = .ok (out, s')) :
+    ∃ j q', out = .obj j true ∧ s.objs.length ≤ j ∧ s'.objs[i]? = some (.scalar q x) ∧
+      s'.objs[j]? = some (.scalar q' x) ∧
+      ∀ b, qEq q q' s' = .ok (b, s') → objEq i j s' = .ok (b, s') := by
+  obtain ⟨q', s1, hp, hout, hs'⟩ := pickle_scalar_parts ho h
+  have fr := (pickleQuantity_safe.run s q' s1 (Nat.le_refl _) hp).1
+  have hoi : s1.objs[i]? = some (.scalar q x) := fr.obj ho
+  have hlen : s.objs.length ≤ s1.objs.length := by
+    obtain ⟨t, ht⟩ := fr.objs; rw [ht]; simp
+  have hi' : s'.objs[i]? = some (.scalar q x) := by subst hs'; exact getElem?_append_some hoi
+  have hj' : s'.objs[s1.objs.length]? = some (.scalar q' x) := by subst hs'; simp
+  refine ⟨s1.objs.length, q', hout, hlen, hi', hj', ?_⟩
+  intro b hb
+  unfold objEq
+  rw [bind_eval, getObj_of hi']; simp only
+  rw [bind_eval, getObj_of hj']; simp only
+  rw [bind_eval, hb]
+  simp [pure_eval]
+
+/-
+Full statement (not proved): as above for FixedArray.  Proved: same dimension, a NEW container cell of the
+same kind with the same contents (so the original's container is not shared with the unpickled object), and
+equality reduces to equality of the re-obtained quantity and of the cached unit strings.
+-/
+theorem pickle_fixedarray_eq_partial (db : Db) (s s' : St) (i d q : Nat) (c : Ref) (out : Out)
+    (ho : s.objs[i]? = some (.fixed d q c)) (h : exec db (.pickle i) s = .ok (out, s')) :
+    ∃ j q' c' k xs, out = .obj j true ∧ s.objs.length ≤ j ∧ s.heap.length ≤ c' ∧
+      s'.objs[i]? = some (.fixed d q c) ∧ s'.objs[j]? = some (.fixed d q' c') ∧
+      s'.heap[c]? = some (.seq k xs) ∧ s'.heap[c']? = some (.seq k xs) ∧
+      ∀ o o', s'.quants[q]? = some o → s'.quants[q']? = some o' → qEq q q' s' = .ok (true, s') →
+        unitOfComp o.derived o.comp = unitOfComp o'.derived o'.comp → objEq i j s' = .ok (true, s') := by
+  obtain ⟨q', s1, k, xs, hp, hc, hout, hs'⟩ := pickle_fixed_parts ho h
+  have fr := (pickleQuantity_safe.run s q' s1 (Nat.le_refl _) hp).1
+  have hoi : s1.objs[i]? = some (.fixed d q c) := fr.obj ho
+  have hlen : s.objs.length ≤ s1.objs.length := by
+    obtain ⟨t, ht⟩ := fr.objs; rw [ht]; simp
+  have hi' : s'.objs[i]? = some (.fixed d q c) := by subst hs'; exact getElem?_append_some hoi
+  have hj' : s'.objs[s1.objs.length]? = some (.fixed d q' s1.heap.length) := by subst hs'; simp
+  have hc1 : s'.heap[c]? = some (.seq k xs) := by subst hs'; exact getElem?_append_some hc
+  have hc2 : s'.heap[s1.heap.length]? = some (.seq k xs) := by subst hs'; simp
+  refine ⟨s1.objs.length, q', s1.heap.length, k, xs, hout, hlen, fr.len, hi', hj', hc1, hc2, ?_⟩
+  intro o o' hq hq' he hu
+  unfold objEq
+  rw [bind_eval, getObj_of hi']; simp only
+  rw [bind_eval, getObj_of hj']; simp only
+  rw [bind_eval, readSeq_of hc1]; simp only
+  rw [bind_eval, readSeq_of hc2]; simp only
+  rw [bind_eval, he]; simp only
+  rw [bind_eval, getQ_of hq]; simp only
+  rw [bind_eval, getQ_of hq']; simp only
+  simp [pure_eval, hu]
+
+/-! ### the round trips on concrete derived, empty, captioned and FixedArray cases (model runs) -/
+
+/-- derived `m/s` Scalar: pickle, CreateCopy and copy are `==` to the original -/
+example :
+    let ops := [Op.mkScalar 2 exM exLength, .mkScalar 3 exS exTime, .arith .div (.obj 0) (.obj 1), .pickle 2,
+                .eq 2 3, .createCopy 2 none none, .eq 2 4, .copy 2]
+    let outs := outputs exDb St.empty ops
+    outIs outs[4]? (.bool true) ∧ outIs outs[6]? (.bool true) ∧ outIs outs[7]? (.obj 2 false) := by
+  decide +kernel
+
+/-- empty quantity and unknown-caption quantity -/
+example :
+    let ops := [Op.mkEmptyScalar 2, .pickle 0, .eq 0 1, .mkCaptionScalar 3 exM exCap, .pickle 2, .eq 2 3,
+                .createCopy 2 none none, .eq 2 4]
+    let outs := outputs exDb St.empty ops
+    outIs outs[2]? (.bool true) ∧ outIs outs[5]? (.bool true) ∧ outIs outs[7]? (.bool true) := by
+  decide +kernel
+
+/-- FixedArray over a tuple with a derived quantity (`m2`): pickle and CreateCopy -/
+example :
+    let ops := [Op.mkFixed 2 .tuple [1, 2] exM exLength, .arith .mul (.obj 0) (.obj 0), .pickle 1, .eq 1 2,
+                .createCopy 1 none none, .eq 1 3]
+    let outs := outputs exDb St.empty ops
+    outIs outs[3]? (.bool true) ∧ outIs outs[5]? (.bool true) := by
+  decide +kernel
+
 end Barril.Heap
